@@ -44,7 +44,7 @@ def deadline(seconds):
         return
 
     def _raise(signum, frame):
-        raise Timeout()
+        raise Timeout("".join(traceback.format_stack(frame, limit=12)))  # where the main thread was when the time ran out
 
     old = signal.signal(signal.SIGALRM, _raise)
     signal.setitimer(signal.ITIMER_REAL, seconds)
